@@ -418,6 +418,17 @@ def _plant(world, root, op):
                     _safe_rmtree(q_)
                     world.count("fault.recorded_version_directory_removed_by_hand")
             continue
+        if item["kind"] == "relocate_path":
+            # a directory below cond-out (e.g. the output directory of a combine task) moved to another volume
+            q_ = out / item["path"]
+            if q_.is_dir() and not q_.is_symlink() and not any(pp.is_symlink() for pp in q_.parents if str(pp).startswith(str(out))):
+                dest = root.parent / "relocated" / ("p-" + item["path"].replace("/", "_"))
+                dest.parent.mkdir(parents=True, exist_ok=True)
+                if not dest.exists():
+                    shutil.move(str(q_), str(dest))
+                    sim.REAL.symlink(str(dest), str(q_))
+                    world.count("fault.output_directory_relocated_behind_a_symlink")
+            continue
         if item["kind"] == "relocate_recorded":
             # big results moved to another volume by hand: the directory of a recorded version (or the whole
             # package directory it lives in) now is a symbolic link to where the data went
